@@ -644,9 +644,19 @@ func (c *client) join() bool {
 		count(rep.Ops, "join_existing")
 	}
 	c.mu.Lock()
+	was := c.joined
 	c.joined = false
 	jc := c.joinCh
 	c.mu.Unlock()
+	if was {
+		// session switch: let the pose/component updates still pending in the connection's scheduler be flushed
+		// (two frames) and consumed first.  Relayed after a refused switch they would each be a refused request,
+		// and a burst of more than 8 refused requests can wedge the main loop on its own disconnect channel — a
+		// sequential defect (blocking send in handler.disconnect) that belongs to property C08, not to this one.
+		c.barrier("before switch")
+		time.Sleep(3 * frameDuration)
+		c.barrier("before switch, after two frames")
+	}
 	for len(jc) > 0 {
 		<-jc
 	}
@@ -699,9 +709,11 @@ func (c *client) finish() {
 
 // ------------------------------------------------------------------------------------------------ load rounds
 
+const frameDuration = 4 * time.Millisecond
+
 func loadRound(seed uint64, round, conns, nsess int, dur, deadline time.Duration, batch int) {
 	curRnd = round
-	s := newServer(4*time.Millisecond, 25*time.Millisecond, 10*time.Millisecond)
+	s := newServer(frameDuration, 25*time.Millisecond, 10*time.Millisecond)
 	p := &pool{}
 	url := "ws" + strings.TrimPrefix(s.ts.URL, "http") + "/"
 	stop := make(chan struct{})
